@@ -134,10 +134,35 @@ def find_evaluator(f):
     entry = find_by_name(f, "evaluate", EXPR)
     if len(entry) != 1:
         return None
+    # the evaluator is the coroutine (body of an async fn) that dispatches on the node kind — itself, or through a
+    # synchronous classifier it calls on the node (`match self.step() { .. }` with `fn step(&self) -> Step`)
+    def width(p):
+        w = discr_switch_width(f, f.bodies[p], EXPR)
+        seen = {p}
+        level = [p]
+        for _ in range(2):
+            nxt = []
+            for q in level:
+                for c in local_callees(f, f.bodies[q]):
+                    cb = f.bodies.get(c)
+                    if not cb or c in seen or cb.get("parent") or cb.get("coroutine_kind") or cb["kind"] not in ("Fn", "AssocFn"):
+                        continue
+                    if any(f.bodies.get(x, {}).get("parent") == c for x in f.bodies if f.bodies[x].get("coroutine_kind")):
+                        continue        # an async fn: evaluation proper, not a classifier
+                    if not any(EXPR in f.ty_s(cb["locals"][i]["ty"]) for i in range(1, cb["arg_count"] + 1)):
+                        continue
+                    seen.add(c)
+                    nxt.append(c)
+                    w = max(w, discr_switch_width(f, cb, EXPR))
+            level = nxt
+        return w
+
     best = None
     for p in reachable_local(f, entry):
         b = f.bodies[p]
-        w = discr_switch_width(f, b, EXPR)
+        if not b.get("parent"):
+            continue
+        w = width(p)
         if w >= 10 and (best is None or w > best[0]):
             best = (w, p)
     if not best:
